@@ -210,8 +210,6 @@ def episode(ctx, env, inner_of, rng, where, padding, first_obs):
             ctx.violation("c18_done_or_truncated", {"where": where, "done": done, "complete": complete,
                                                     "truncated": trunc, "steps": steps, "N": N})
             return False
-        if set(info) != {"feature_names", "available_operations"}:
-            ctx.violation("c18_info_keys", {"keys": sorted(info)})
         if steps > N + 1:
             break
     return True
